@@ -164,6 +164,7 @@ class InterpolatingOpacity(Opacity):
                 'Unknown interpolation mode {}'.format(self._interp_mode))
 
     def compute_opacity(self, temperature, pressure, wngrid=None):
-        import math
-        logpressure = math.log10(pressure)
+        # same routine as logPressure: a request on a tabulated pressure
+        # must compare equal to its node, not one rounding below it
+        logpressure = np.log10(pressure)
         return self.interp_bilinear_grid(temperature, logpressure, *self.find_closest_index(temperature, logpressure), wngrid) / 10000
